@@ -645,6 +645,66 @@ func (g *Gen) fixErrors(ns []*TNode) {
 	}
 }
 
+var filtByName = func() map[string]filt {
+	m := map[string]filt{}
+	for _, l := range [][]filt{strFilters, numFilters, arrFilters, arrScalarFilters} {
+		for _, f := range l {
+			if _, ok := m[f.name]; !ok {
+				m[f.name] = f
+			}
+		}
+	}
+	return m
+}()
+
+// reArg regenerates the arguments of every known filter in an expression:
+// same inputs, same filters, other argument values.
+func (g *Gen) reArg(expr string, sc scope) string {
+	parts := strings.Split(expr, " | ")
+	for i := 1; i < len(parts); i++ {
+		name := parts[i]
+		if j := strings.IndexByte(name, ':'); j >= 0 {
+			name = name[:j]
+		}
+		name = strings.TrimSpace(name)
+		if f, ok := filtByName[name]; ok && g.r.Chance(0.8) {
+			parts[i] = f.name + f.args(g, sc)
+		}
+	}
+	return strings.Join(parts, " | ")
+}
+
+// Sibling returns a copy of a template tree in which filter arguments have been
+// redrawn. Rendering a template and its siblings on one engine applies the same
+// filter to the same inputs with nearby arguments: the situation in which state
+// keyed by an incomplete function of the arguments (a memo, a cache) goes wrong.
+func (g *Gen) Sibling(ns []*TNode, e *Env) []*TNode {
+	out := cloneTree(ns)
+	sc := scopeOf(e)
+	var walk func(ns []*TNode)
+	walk = func(ns []*TNode) {
+		for _, n := range ns {
+			switch {
+			case n.K == "obj":
+				n.S = g.reArg(n.S, sc)
+			case n.K == "tag" && (strings.HasPrefix(n.S, "assign ") || strings.HasPrefix(n.S, "echo ")):
+				n.S = g.reArg(n.S, sc)
+			case n.K == "block" && (strings.HasPrefix(n.S, "for ") || strings.HasPrefix(n.S, "tablerow ")):
+				// loop modifiers follow the expression: only redraw when there are none
+				if !strings.Contains(n.S, " limit:") && !strings.Contains(n.S, " offset:") && !strings.Contains(n.S, " cols:") && !strings.HasSuffix(n.S, " reversed") {
+					n.S = g.reArg(n.S, sc)
+				}
+			}
+			walk(n.C)
+			for _, cl := range n.Cl {
+				walk(cl.C)
+			}
+		}
+	}
+	walk(out)
+	return out
+}
+
 // Template generates one template tree.
 func (g *Gen) Template(e *Env) []*TNode {
 	ns := g.Nodes(scopeOf(e), 0, 8)
